@@ -36,9 +36,9 @@ func (r *Rng) Intn(n int) int {
 	}
 	return int(r.U64() % uint64(n))
 }
-func (r *Rng) Bool() bool         { return r.U64()&1 == 1 }
-func (r *Rng) Chance(p int) bool  { return r.Intn(100) < p } // p percent
-func (r *Rng) Fork() *Rng         { return NewRng(r.U64()) }
+func (r *Rng) Bool() bool          { return r.U64()&1 == 1 }
+func (r *Rng) Chance(p int) bool   { return r.Intn(100) < p } // p percent
+func (r *Rng) Fork() *Rng          { return NewRng(r.U64()) }
 func Pick[T any](r *Rng, xs []T) T { return xs[r.Intn(len(xs))] }
 
 // SeedFromEnv reads VERIF_SEED (default 1).
@@ -119,21 +119,21 @@ type Case struct {
 }
 
 type Report struct {
-	Property      string         `json:"property"`
-	Seed          uint64         `json:"seed"`
-	Tier          string         `json:"tier"`
-	Evaluations   int            `json:"evaluations"`
-	Distinct      int            `json:"distinct_nontrivial"`
-	Rule          string         `json:"rule"`
-	Samples       []string       `json:"samples"`
-	Hist          map[string]int `json:"histograms"`
-	Compared      int            `json:"traces_validated_against_impl"`
-	Cases         []Case         `json:"cases"`
-	Exhaustive    []string       `json:"exhaustive_parts,omitempty"`
-	WallS         float64        `json:"wall_s"`
-	seen          map[uint64]struct{}
-	start         time.Time
-	maxSamples    int
+	Property    string         `json:"property"`
+	Seed        uint64         `json:"seed"`
+	Tier        string         `json:"tier"`
+	Evaluations int            `json:"evaluations"`
+	Distinct    int            `json:"distinct_nontrivial"`
+	Rule        string         `json:"rule"`
+	Samples     []string       `json:"samples"`
+	Hist        map[string]int `json:"histograms"`
+	Compared    int            `json:"traces_validated_against_impl"`
+	Cases       []Case         `json:"cases"`
+	Exhaustive  []string       `json:"exhaustive_parts,omitempty"`
+	WallS       float64        `json:"wall_s"`
+	seen        map[uint64]struct{}
+	start       time.Time
+	maxSamples  int
 }
 
 func NewReport(prop, tier string, seed uint64, rule string) *Report {
